@@ -442,15 +442,26 @@ func mapOf(pay []Pair) map[string]interface{} {
 	return m
 }
 
+// IsRawKind: the program is one raw SQL template.
+func IsRawKind(k string) bool {
+	return k == "raw" || k == "exec" || k == "rows" || k == "raw_find" || k == "raw_take"
+}
+
 // Run builds the chain on base and runs the finisher; returns the *gorm.DB result.
 func Run(base *gorm.DB, p Prog) *gorm.DB {
 	tx := base
-	if p.Fin.Kind == "raw" || p.Fin.Kind == "exec" || p.Fin.Kind == "rows" {
+	if IsRawKind(p.Fin.Kind) {
 		t, args := tmplOf(p.Parts[0].Holes, p.Parts[0].Named, base, new(int))
 		switch p.Fin.Kind {
 		case "raw":
 			var out []W
 			return tx.Raw("SELECT * FROM ws WHERE "+t, args...).Scan(&out)
+		case "raw_find": // raw SQL finished by a finisher of the query pipeline
+			var out []W
+			return tx.Raw("SELECT * FROM ws WHERE "+t, args...).Find(&out)
+		case "raw_take":
+			var out W
+			return tx.Raw("SELECT * FROM ws WHERE "+t, args...).Take(&out)
 		case "rows":
 			r := tx.Raw("SELECT * FROM ws WHERE "+t, args...)
 			rows, err := r.Rows()
@@ -536,6 +547,8 @@ func Run(base *gorm.DB, p Prog) *gorm.DB {
 		return base.Create(&ws)
 	case "create_map":
 		return base.Model(mdl()).Create(mapOf(p.Fin.Pay))
+	case "create_tmap": // no model: nothing is generated by the database, the INSERT has no RETURNING
+		return base.Table("ws").Create(mapOf(p.Fin.Pay))
 	case "upsert":
 		w := wOf(p.Fin.Pay)
 		w.ID = 1
@@ -803,11 +816,11 @@ func (g *gen) pay(n int) []Pair {
 func RandProg(r *rand.Rand) Prog {
 	g := &gen{r: r}
 	var p Prog
-	kinds := []string{"find", "first", "count", "pluck", "update", "updates", "updates_map", "delete", "delete_returning", "update_returning", "create", "create_slice", "create_map", "upsert", "raw", "exec", "rows", "save", "create_batches", "row"}
+	kinds := []string{"find", "first", "count", "pluck", "update", "updates", "updates_map", "delete", "delete_returning", "update_returning", "create", "create_slice", "create_map", "upsert", "raw", "exec", "rows", "save", "create_batches", "row", "raw_find", "raw_take", "create_tmap"}
 	p.Fin.Kind = kinds[r.Intn(len(kinds))]
 	p.Soft = r.Intn(3) == 0
 	switch p.Fin.Kind {
-	case "raw", "exec", "rows":
+	case "raw", "exec", "rows", "raw_find", "raw_take":
 		p.Soft = false
 		n := 1 + r.Intn(3)
 		part := Part{M: "Raw", Named: r.Intn(4) == 0}
@@ -820,8 +833,9 @@ func RandProg(r *rand.Rand) Prog {
 		}
 		p.Parts = []Part{part}
 		return p
-	case "create", "create_map":
+	case "create", "create_map", "create_tmap":
 		p.Fin.Pay = g.pay(1 + r.Intn(8))
+		p.Soft = p.Soft && p.Fin.Kind != "create_tmap"
 		return p
 	case "create_slice", "create_batches":
 		p.Fin.Pay = g.pay(8)
